@@ -106,6 +106,10 @@ func (m *M) check(b, route string, a Args, pre *snapshot, r *world.Result) {
 	cfg := m.Cfg
 	pu := func(pid string) *world.User { return pre.users[pid] }
 
+	// did the remember middleware authenticate this request (whatever the route did afterwards)?
+	cookiePID0 := cookiePIDOf(pre)
+	mwAuth0 := cfg.RememberMW && cfg.Has("remember") && oldU == "" && cookiePID0 != "" && rememberLicence(pre, cookiePID0)
+
 	// ---------------- C01: a new session identity needs a licence ----------------------
 	if newU != "" && newU != oldU {
 		U := newU
@@ -154,6 +158,11 @@ func (m *M) check(b, route string, a Args, pre *snapshot, r *world.Result) {
 			if u != nil && started && ((a.RCode == "" && a.Code != "" && a.Code == pre.sess["sms_secret"]) || (a.RCode != "" && recCodeValid(u, a.RCode))) {
 				lic = "sms"
 			}
+		}
+		// the identity came from the remember cookie and the interactive flow did not complete
+		// (a completed full login deletes the half-auth mark)
+		if mwAuth0 && U == cookiePID0 && post.Sess["halfauth"] == "true" {
+			lic = "remember"
 		}
 		// one-time credentials: the harness' own count of successful uses (C01 "unconsumed", C12)
 		once := ""
@@ -210,7 +219,11 @@ func (m *M) check(b, route string, a Args, pre *snapshot, r *world.Result) {
 				}
 			}
 			if sentTo != u.SMSPhoneNumber {
-				m.violate("C02", "sms_secret-unbound:"+m.smsOrigin[a.Code], fmt.Sprintf("pending login of %q completed with an SMS code that was sent to %q, not to its number %q", U, sentTo, u.SMSPhoneNumber), b)
+				mech := "other:" + m.smsOrigin[a.Code]
+				if m.staleSecret[b] {
+					mech = "rate-limited-hijack"
+				}
+				m.violate("C02", "sms_secret-unbound:"+mech, fmt.Sprintf("pending login of %q completed with an SMS code that was sent to %q, not to its number %q", U, sentTo, u.SMSPhoneNumber), b)
 			}
 		}
 
@@ -292,7 +305,7 @@ func (m *M) check(b, route string, a Args, pre *snapshot, r *world.Result) {
 				m.violate("C12", "totp-lastcode-confirm", "with replay protection the code that confirmed TOTP enrolment was not stored as the last used code", b)
 			}
 		}
-		if route == "totpvalidate" && newU != "" && newU != oldU {
+		if route == "totpvalidate" && newU != "" && newU != oldU && !(mwAuth0 && post.Sess["halfauth"] == "true") {
 			if u1 := m.W.Store.Users[newU]; u1 != nil && u1.TOTPLastCode != a.Code {
 				m.violate("C12", "totp-lastcode-validate", "with replay protection an accepted TOTP code was not stored as the last used code", b)
 			}
@@ -304,7 +317,7 @@ func (m *M) check(b, route string, a Args, pre *snapshot, r *world.Result) {
 			who = oldU
 		}
 		if u0, u1 := pu(who), m.W.Store.Users[who]; u0 != nil && u1 != nil && recCodeValid(u0, a.RCode) {
-			acceptedRec := (route == "totpvalidate" || route == "smsvalidate") && newU != "" && newU != oldU ||
+			acceptedRec := (route == "totpvalidate" || route == "smsvalidate") && newU != "" && newU != oldU && !(mwAuth0 && post.Sess["halfauth"] == "true") ||
 				route == "totpremove" && u0.TOTPSecretKey != "" && u1.TOTPSecretKey == "" || route == "smsremove" && u0.SMSPhoneNumber != "" && u1.SMSPhoneNumber == ""
 			if acceptedRec && recCodeValid(u1, a.RCode) && strings.Count(u1.RecoveryCodes, ",") >= strings.Count(u0.RecoveryCodes, ",") && u0.RecoveryCodes != "" {
 				m.violate("C12", "reccode-not-removed", fmt.Sprintf("a recovery code of %q was accepted but is still in storage", who), b)
@@ -343,6 +356,14 @@ func (m *M) check(b, route string, a Args, pre *snapshot, r *world.Result) {
 				m.violate("C06", "other-account", fmt.Sprintf("changing the password of %q changed the password of %q", pid, other), b)
 			}
 		}
+	}
+
+	// F9 bookkeeping: a login parked for a new account while the SMS send was suppressed leaves
+	// the previous code in the session
+	if len(r.NewSMS) > 0 {
+		m.staleSecret[b] = false
+	} else if post.Sess["sms_pending"] != "" && post.Sess["sms_pending"] != pre.sess["sms_pending"] && pre.sess["sms_secret"] != "" {
+		m.staleSecret[b] = true
 	}
 
 	// ---------------- C07: remember cookie -------------------------------------------------
